@@ -20,7 +20,7 @@ echo "| seeded change | property | valid on HEAD (applies / suite passes / demo 
 echo "|---|---|---|---|---|"
 } > $out.tmp
 for d in $VERIF/seeded/$glob/; do
-  n=$(basename $d); [ -f $d/patch.diff ] || continue
+  n=$(basename $d); [ -f $d/patch.diff ] || continue   # (seeded/_invalidated/ holds changes a later repair made inert)
   prop=$(python3 -c "import json;print(json.load(open('$d/meta.json'))['breaks_property'])")
   valid="n/a"
   cd $wt && git checkout -q -- . && git clean -fdq
